@@ -36,9 +36,10 @@ def accessors(F, S):
         inst = "%s::%s~%s" % (M, g, s)
         stores = [nd for nd in sf.nodes if is_store(nd)]
         req = "getter reads and setter writes tiles[GetTileIndex(x, y)].%s; the setter stores its argument there and nothing else" % field
-        good = len(rets) == 1 and gf.term(rets[0]["value"]) == want_g and len(stores) == 1 and stores[0].get("op") == "="
+        gdefs, sdefs = c05.alias_defs(gf), c05.alias_defs(sf)
+        good = len(rets) == 1 and c05.resolve(gf.term(rets[0]["value"]), gdefs) == want_g and len(stores) == 1 and stores[0].get("op") == "="
         if good:
-            lt = sf.term(sf.kids(stores[0]["id"])[0])
+            lt = c05.resolve(sf.term(sf.kids(stores[0]["id"])[0]), sdefs)
             rt = sf.term(sf.kids(stores[0]["id"])[1])
             want_s = ("mem", ("idx", ("mem", ("this",), "tiles"), tile_index_term(sf, F)), field)
             good = lt == want_s and rt == P(sf, 0)
@@ -92,7 +93,7 @@ def mapping_getters(F):
     r = returns(tm)
     want = ("mem", ("idx", ("mem", ("this",), "tiles"), tile_index_term(tm, F)), "tileMappingIndex")
     inst = M + "::GetTileMappingIndex#path"
-    if len(r) == 1 and tm.term(r[0]["value"]) == want:
+    if len(r) == 1 and c05.resolve(tm.term(r[0]["value"]), c05.alias_defs(tm)) == want:
         out.append(ok("R-SIB", inst, tm.loc(r[0]["id"]), tm.qn, "returns tiles[GetTileIndex(x, y)].tileMappingIndex", fmt_term(want)))
     else:
         out.append(bad("R-SIB", inst, tm.loc(tm.body), tm.qn, "returns tiles[GetTileIndex(x, y)].tileMappingIndex", "returns %s" % (fmt_term(tm.term(r[0]["value"])) if r else "?")))
